@@ -50,9 +50,9 @@ def InHouse (fmt : Fmt) : Prop := fmt = .kthlist ∨ fmt = .dimacs ∨ fmt = .ma
 type and reading the rows back returns the same graph: same order / split, same numbering,
 same edges (every adjacency table is identical), isolated vertices and empty sides included,
 no bound on the number of vertices. -/
-theorem roundtrip (ty : GType) (fmt : Fmt) (G : AnyG) (hin : InHouse fmt) (hsup : fmt ∈ supported ty)
+theorem roundtrip (name : Str) (ty : GType) (fmt : Fmt) (G : AnyG) (hin : InHouse fmt) (hsup : fmt ∈ supported ty)
     (hty : HasType ty G) (hinv : InvAny G) :
-    ∃ rows G', writeGraph ty fmt G = .ok rows ∧ readGraph ty rows = .ok G' ∧ SameAny G G' := by
+    ∃ rows G', writeGraph name ty fmt G = .ok rows ∧ readGraph ty rows = .ok G' ∧ SameAny G G' := by
   have hc : checkArgs ty fmt = .ok () := by
     unfold checkArgs
     rw [if_pos (List.contains_iff_mem.2 hsup)]
@@ -60,34 +60,34 @@ theorem roundtrip (ty : GType) (fmt : Fmt) (G : AnyG) (hin : InHouse fmt) (hsup 
   | simple g =>
     cases ty <;> simp only [HasType] at hty
     rcases hin with rfl | rfl | rfl
-    · obtain ⟨g', h1, h2⟩ := roundtrip_kth_simple hinv
-      exact ⟨.kth (writeKthSimple g), .simple g', by simp [writeGraph, hc], by simp [readGraph, Rows.fmt, hc, h1, Except.map], h2⟩
-    · obtain ⟨g', h1, h2⟩ := roundtrip_dimacs_simple hinv
-      exact ⟨.dimacs (writeDimacsSimple g), .simple g', by simp [writeGraph, hc], by simp [readGraph, Rows.fmt, hc, h1, Except.map], h2⟩
+    · obtain ⟨g', h1, h2⟩ := roundtrip_kth_simple (nameLines name).length hinv
+      exact ⟨.kth (writeKthSimple (nameLines name).length g), .simple g', by simp [writeGraph, hc], by simp [readGraph, Rows.fmt, hc, h1, Except.map], h2⟩
+    · obtain ⟨g', h1, h2⟩ := roundtrip_dimacs_simple (nameLines name).length hinv
+      exact ⟨.dimacs (writeDimacsSimple (nameLines name).length g), .simple g', by simp [writeGraph, hc], by simp [readGraph, Rows.fmt, hc, h1, Except.map], h2⟩
     · simp [supported] at hsup
   | di g =>
     cases ty <;> simp only [HasType] at hty
     · -- digraph
       rcases hin with rfl | rfl | rfl
-      · obtain ⟨g', h1, h2⟩ := roundtrip_kth_di hinv
-        exact ⟨.kth (writeKthDi g), .di g', by simp [writeGraph, hc], by simp [readGraph, Rows.fmt, hc, h1, Except.map], h2⟩
-      · obtain ⟨g', h1, h2⟩ := roundtrip_dimacs_di hinv
-        exact ⟨.dimacs (writeDimacsDi g), .di g', by simp [writeGraph, hc], by simp [readGraph, Rows.fmt, hc, h1, Except.map], h2⟩
+      · obtain ⟨g', h1, h2⟩ := roundtrip_kth_di (nameLines name).length hinv
+        exact ⟨.kth (writeKthDi (nameLines name).length g), .di g', by simp [writeGraph, hc], by simp [readGraph, Rows.fmt, hc, h1, Except.map], h2⟩
+      · obtain ⟨g', h1, h2⟩ := roundtrip_dimacs_di (nameLines name).length hinv
+        exact ⟨.dimacs (writeDimacsDi (nameLines name).length g), .di g', by simp [writeGraph, hc], by simp [readGraph, Rows.fmt, hc, h1, Except.map], h2⟩
       · simp [supported] at hsup
     · -- dag
       rcases hin with rfl | rfl | rfl
-      · obtain ⟨g', h1, h2⟩ := roundtrip_kth_di hinv
+      · obtain ⟨g', h1, h2⟩ := roundtrip_kth_di (nameLines name).length hinv
         have hd : g'.stillDag = true := by rw [h2.stillDag]; exact hty
-        exact ⟨.kth (writeKthDi g), .di g', by simp [writeGraph, hc], by simp [readGraph, Rows.fmt, hc, h1, hd], h2⟩
-      · obtain ⟨g', h1, h2⟩ := roundtrip_dimacs_di hinv
+        exact ⟨.kth (writeKthDi (nameLines name).length g), .di g', by simp [writeGraph, hc], by simp [readGraph, Rows.fmt, hc, h1, hd], h2⟩
+      · obtain ⟨g', h1, h2⟩ := roundtrip_dimacs_di (nameLines name).length hinv
         have hd : g'.stillDag = true := by rw [h2.stillDag]; exact hty
-        exact ⟨.dimacs (writeDimacsDi g), .di g', by simp [writeGraph, hc], by simp [readGraph, Rows.fmt, hc, h1, hd], h2⟩
+        exact ⟨.dimacs (writeDimacsDi (nameLines name).length g), .di g', by simp [writeGraph, hc], by simp [readGraph, Rows.fmt, hc, h1, hd], h2⟩
       · simp [supported] at hsup
   | bip g =>
     cases ty <;> simp only [HasType] at hty
     rcases hin with rfl | rfl | rfl
-    · obtain ⟨g', h1, h2⟩ := roundtrip_kth_bip hinv
-      exact ⟨.kth (writeKthBip g), .bip g', by simp [writeGraph, hc], by simp [readGraph, Rows.fmt, hc, h1, Except.map], h2⟩
+    · obtain ⟨g', h1, h2⟩ := roundtrip_kth_bip (nameLines name).length hinv
+      exact ⟨.kth (writeKthBip (nameLines name).length g), .bip g', by simp [writeGraph, hc], by simp [readGraph, Rows.fmt, hc, h1, Except.map], h2⟩
     · simp [supported] at hsup
     · obtain ⟨g', h1, h2⟩ := roundtrip_matrix hinv
       exact ⟨.matrix (writeMatrix g), .bip g', by simp [writeGraph, hc], by simp [readGraph, Rows.fmt, hc, h1, Except.map], h2⟩
@@ -446,32 +446,54 @@ theorem bipartite_nx_roundtrip {G : BipG} (h : BipG.Inv G) :
     ∃ G', bipOfNx (bipToNx G).1 (bipToNx G).2 = .ok G' ∧ SameAny (.bip G) (.bip G') :=
   bipOfNx_bipToNx h
 
-/-- T-C14.4c dot: pydot returns the labels as decimal STRINGS; sorted lexicographically they
-keep their numeric order exactly when there are at most nine of them.  For `n ≤ 9` the
-relabelling is the identity … -/
-theorem relabel_decimal_strings_le9 :
-    ∀ n, n ≤ 9 → ∀ u, u < n → rank (sortBy strLe (decLabels n)) (natStr (u + 1)) = u + 1 := by decide
+/-- T-C14.4c dot: pydot returns the node names as decimal STRINGS.  Since fix 8f27729 the dot
+branch of `readGraph` turns all-digit names into integers before `normalize` (`relabelDot`), and
+the relabelling of the names `"1", …, "n"` is the identity for EVERY `n` (full strength; with the
+old code, which sorted the strings, this held only up to `n = 9`: former defect D15). -/
+theorem dot_relabel_identity (n : Nat) (edges : List (Nat × Nat))
+    (h : ∀ e ∈ edges, (1 ≤ e.1 ∧ e.1 ≤ n) ∧ 1 ≤ e.2 ∧ e.2 ≤ n) :
+    relabelDot (decLabels n) (edges.map (fun e => (natStr e.1, natStr e.2))) = (n, edges) :=
+  relabelDot_decLabels n edges h
 
-/-- … and from ten vertices on it is not (D15): "10" sorts before "2".  The path `1 - 2` of a
-10-vertex graph comes back as `1 - 3`, vertex 10 becomes vertex 2, and an 11-vertex path read as
-`'dag'` is rejected. -/
-theorem relabel_decimal_strings_10 :
-    relabelStrs (decLabels 10) [(natStr 1, natStr 2), (natStr 9, natStr 10)] = (10, [(1, 3), (10, 2)]) := by
+/-- T-C14.4c' dot round trip, modulo the third-party writer/parser (names `str(v)` in order, edges
+as pairs of names): the same graph comes back, the dag test included, for any number of vertices -/
+theorem dot_relabel_roundtrip_simple {G : SimpleG} (h : SimpleG.Inv G) :
+    ∃ G', readNx .simple (relabelDot (decLabels G.n)
+        (G.edges.map (fun e => (natStr e.1, natStr e.2)))) = .ok (.simple G') ∧
+      SameAny (.simple G) (.simple G') := by
+  rw [relabelDot_decLabels G.n G.edges (fun e he => by
+    have := h.edges_range (u := e.1) (v := e.2) he; omega)]
+  obtain ⟨G', h1, h2, h3, _, _, h6⟩ := SimpleG.fromNx_toNx h
+  exact ⟨G', by simp only [readNx, simpleOfNx]; rw [show SimpleG.ofEdges G.n G.edges = .ok G' from h1]; rfl,
+    SimpleG.same_of_inv h h2 h3 h6⟩
+
+theorem dot_relabel_roundtrip_directed (ty : GType) (hty : ty = .digraph ∨ ty = .dag) {G : DiG} (h : DiG.Inv G)
+    (hd : ty = .dag → G.stillDag = true) :
+    ∃ G', readNx ty (relabelDot (decLabels G.n)
+        (G.edges.map (fun e => (natStr e.1, natStr e.2)))) = .ok (.di G') ∧
+      SameAny (.di G) (.di G') := by
+  rw [relabelDot_decLabels G.n G.edges (fun e he => by
+    have := h.range e.1 e.2 (h.mem_edges.1 he); omega)]
+  obtain ⟨G', h1, h2, h3, _, _, _, h7, h8⟩ := DiG.fromNx_toNx h
+  have h1' : DiG.ofEdges G.n G.edges = .ok G' := h1
+  refine ⟨G', ?_, DiG.same_of_inv h h2 h3 h8⟩
+  rcases hty with rfl | rfl
+  · simp only [readNx, diOfNx, h1']; rfl
+  · have : G'.stillDag = true := by rw [h7]; exact hd rfl
+    simp only [readNx, diOfNx, h1', this, if_true]
+
+/-- regression examples about the OLD behaviour (labels sorted as strings, `relabelStrs`): the
+sort is the identity only up to nine labels; with ten, "10" lands before "2"; an 11-vertex path
+read as `'dag'` was rejected.  `relabelDot` on the same inputs is the identity. -/
+example : ∀ n, n ≤ 9 → ∀ u, u < n → rank (sortBy strLe (decLabels n)) (natStr (u + 1)) = u + 1 := by decide
+example : relabelStrs (decLabels 10) [(natStr 1, natStr 2), (natStr 9, natStr 10)] = (10, [(1, 3), (10, 2)]) := by
   decide
-
-theorem relabel_decimal_strings_11_dag_rejected :
-    readNx .dag (relabelStrs (decLabels 11)
-      ((List.range 10).map (fun i => (natStr (i + 1), natStr (i + 2))))) = .error .valueError := by
-  rfl
-
-/-- the full statement "the dot relabelling preserves the numbering" is false of the model -/
-def DotRelabelIsIdentity : Prop :=
-  ∀ n u, u < n → rank (sortBy strLe (decLabels n)) (natStr (u + 1)) = u + 1
-
-theorem not_dotRelabelIsIdentity : ¬ DotRelabelIsIdentity := by
-  intro h
-  have := h 10 9 (by decide)
-  revert this
+example : readNx .dag (relabelStrs (decLabels 11)
+    ((List.range 10).map (fun i => (natStr (i + 1), natStr (i + 2))))) = .error .valueError := rfl
+example : relabelDot (decLabels 10) [(natStr 1, natStr 2), (natStr 9, natStr 10)] = (10, [(1, 2), (9, 10)]) := by
   decide
+/-- names that are not all digits are still sorted as strings; `"01"` and `"1"` are merged -/
+example : relabelDot [['b'], ['1', '0'], ['a']] [(['b'], ['a'])] = (3, [(3, 2)]) := by decide
+example : relabelDot [['0', '1'], ['1'], ['2']] [(['0', '1'], ['2'])] = (2, [(1, 2)]) := by decide
 
 end Cnfgen.C14
